@@ -33,7 +33,8 @@ TRUSTED = ['jax.random.uniform draws are in [0,1) and uniform (the law is the de
            'float grid effects at 2^-24 (an on-grid value computed one ulp off the grid) are not modelled',
            'haiku PRNGSequence with the default rng_reserve_size = 1 (read from haiku/_src/base.py, modelled as paths)',
            'the recorded key path of a draw is recovered by looking its key data up among all split paths of the root key',
-           'tools/anchors/compression.py reading of `math.log2(base) * a + b` as the triple (base, a, b)']
+           'tools/anchors/compression.py reading of `math.log2(base) * a + b` as the triple (base, a, b), of the split / '
+           'PRNGSequence / zip / starmap statements as key paths, and tools/lib/vfun.py (vectorised jnp -> NanQ with broadcasting)']
 ASSUMPTIONS = ['u is the value returned by jax.random.uniform for the coordinate, 0 <= u < 1',
                'TernGrad: sigma is a parameter with sigma >= 0 and sigma^2 == var v (jnp.std is not modelled: sqrt)',
                'rational model: input vectors are finite and within the float32 range of their squares and of max - min '
@@ -41,11 +42,17 @@ ASSUMPTIONS = ['u is the value returned by jax.random.uniform for the coordinate
                'rotated aggregators are evaluated in Coq only for leaves whose padded size is a perfect square (sqrt d rational); '
                'other sizes are judged by the oracle only',
                'total client weight > 0 in the aggregate theorems (zero total weight is C07 territory)']
-PARTIAL = ['C11_aggregate_error_bound for the rotated aggregators is per-client in the rotated space plus norm preservation of the '
-           'rotation (C18); the Jensen step to a bound on the aggregate in the original space is not proved (…_partial)',
+PARTIAL = ['rotated aggregators (rotated uniform, DRIVE): "aggregate = weighted mean of the per-client quantised trees" is proved '
+           'for any finite per-client trees and the aggregators are shown to be `aggregate` of the pipeline results whenever those '
+           'are defined (C11_rotated_aggregate_is_wmean_partial); that the pipeline is defined and size-preserving for every input, '
+           'and the squared-norm error bound via C18_parseval, are NOT proved (C18 is stated for Leibniz rings, the C11 model is '
+           'over Q with Qeq); judged by correspondence (exact for square padded sizes) and oracle',
+           'TernGrad error bound is against the weighted mean of the CLIPPED inputs (the quantizer is unbiased for those)',
            'arithmetic-coding bit count (encode_algorithm="arithmetic") is checked by the oracle against an independent '
            'entropy computation, not modelled in Coq',
-           'expectation = integral over u is stated as: output is ceil-level exactly on u in [0,t] and (1-t)*floor + t*ceil == v']
+           'expectation = integral over u is stated as: output is the upper level exactly on u in [0,t] (binary: [0,t)) and '
+           '(1-t)*lower + t*upper == x',
+           'jnp.std is a parameter (sigma) of the translated terngrad_quantize; hk.PRNGSequence is a hand model of haiku']
 CASE_TIMEOUT = 180
 
 
@@ -167,7 +174,7 @@ def _ucase(fn, v, L, G, shape=None):
 
 def generate(tier, rng):
   G = 64 if tier != 'thorough' else 256
-  n_rand = {'quick': 40, 'thorough': 200, 'search': 150}[tier]
+  n_rand = {'quick': 32, 'thorough': 200, 'search': 150}[tier]
   eighth = lambda n: [rng.randrange(-32, 33) / 8.0 for _ in range(n)]
   special = [
       [0.0], [2.5], [-1.0], [0.0, 0.0, 0.0], [1.5, 1.5, 1.5, 1.5], [0.0, 2.0, 2.0], [0.0, 1.0, 2.0], [1.0, 2.0, 3.0, 4.0, 5.0],
@@ -218,7 +225,7 @@ def generate(tier, rng):
     keep = {}
     for agg, nc, nr in combos:
       keep.setdefault(agg, [])
-      if len(keep[agg]) < 7:
+      if len(keep[agg]) < 6:
         keep[agg].append((agg, nc, nr))
     combos = [c for a in AGGS for c in keep[a]]
     # make sure every client count and round count appears for every aggregator
@@ -260,8 +267,9 @@ def run_U(case):
   G = case['G']
   v32 = np.array(case['v'], np.float32)
   outs = []
-  for g in range(G):
-    with Spy(const_u=g / G, wrap=False):
+  with Spy(const_u=0.0, wrap=False) as spy:
+    for g in range(G):
+      spy.const_u = g / G
       outs.append(_call_q(case['fn'], case['v'], case['L'], case['shape'], 0))
   outs = np.array(outs, np.float64)           # [G, n]
   at0 = outs[0]
